@@ -136,16 +136,18 @@ type redialRun struct {
 	connReady   chan struct{}
 	gate        chan struct{}
 	gateOnce    sync.Once
+	deadCh      chan struct{} // closed when an error surfaced without cause: the run cannot go on
+	deadOnce    sync.Once
 
-	pktsIn, pktsOut       int64
-	errAfterClose         int64
-	errAfterDialFail      int64
+	pktsIn, pktsOut         int64
+	errAfterClose           int64
+	errAfterDialFail        int64
 	dialEnteredWithUnclosed int64
 }
 
 func newRedialRun(res *vlib.Result, sc redialScript) *redialRun {
 	return &redialRun{res: res, script: sc, sigs: map[string]chan struct{}{}, fired: map[string]bool{},
-		connReady: make(chan struct{}), gate: make(chan struct{})}
+		connReady: make(chan struct{}), gate: make(chan struct{}), deadCh: make(chan struct{})}
 }
 
 func (rr *redialRun) event(format string, a ...interface{}) {
@@ -190,6 +192,36 @@ func (rr *redialRun) fire(key string) {
 		close(c)
 	}
 	rr.mu.Unlock()
+}
+
+// await waits for an event of this run. It gives up at once when the
+// connection died of a surfaced error (already reported as a violation).
+func (rr *redialRun) await(key string, d time.Duration) bool {
+	ch := rr.ch(key)
+	select {
+	case <-ch:
+		return true
+	default:
+	}
+	t := time.NewTimer(d)
+	defer t.Stop()
+	select {
+	case <-ch:
+		return true
+	case <-rr.deadCh:
+		return false
+	case <-t.C:
+		return false
+	}
+}
+
+func (rr *redialRun) dead() bool {
+	select {
+	case <-rr.deadCh:
+		return true
+	default:
+		return false
+	}
 }
 
 func (rr *redialRun) openGate() { rr.gateOnce.Do(func() { close(rr.gate) }) }
@@ -307,6 +339,7 @@ func (rr *redialRun) judgeError(op string, err error) {
 	case !cl && !df:
 		rr.event("%s returned %v", op, err)
 		rr.res.Violatef("surfaced-error:"+op, rr.replay(), "%s returned %q although Close was not called and no dial failed", op, err.Error())
+		rr.deadOnce.Do(func() { close(rr.deadCh) })
 	case df:
 		atomic.AddInt64(&rr.errAfterDialFail, 1)
 	default:
@@ -384,7 +417,11 @@ var notClosedSeen int32
 // must get closed. Decided by the goroutine dump, not by a deadline: once no
 // dialLoop goroutine is left nobody will ever close a carrier.
 func (rr *redialRun) awaitAllClosed() {
-	for i := 0; i < 2000; i++ {
+	patience := 300 * time.Millisecond
+	if atomic.LoadInt32(&notClosedSeen) >= 5 {
+		patience = 10 * time.Millisecond
+	}
+	for t0 := time.Now(); time.Since(t0) < patience; {
 		if rr.unclosed() == 0 {
 			return
 		}
@@ -599,12 +636,16 @@ func leakScenario(res *vlib.Result, name string, idSuffix string, busy bool, gen
 		w = rr.startWriter()
 	}
 	abort := func(why string) {
-		res.Inconcl(id + ": " + why)
+		if !rr.dead() { // a surfaced error was reported as a violation already
+			res.Inconcl(id + ": " + why)
+		}
 		rr.close()
+		w.resume()
 		w.stop()
 		waitCh(rdone, 30*time.Second)
+		res.Save()
 	}
-	if !waitCh(rr.ch(fmt.Sprintf("hold/%d", leakR)), 120*time.Second) {
+	if !rr.await(fmt.Sprintf("hold/%d", leakR), 120*time.Second) {
 		abort(fmt.Sprintf("did not reach %d redials in 120 s (%d dials)", leakR, rr.nCarriers()))
 		return
 	}
@@ -616,7 +657,7 @@ func leakScenario(res *vlib.Result, name string, idSuffix string, busy bool, gen
 	}
 	rr.carrierAt(leakR).releaseNow()
 	w.resume()
-	if !waitCh(rr.ch(fmt.Sprintf("hold/%d", 4*leakR)), 120*time.Second) {
+	if !rr.await(fmt.Sprintf("hold/%d", 4*leakR), 120*time.Second) {
 		abort(fmt.Sprintf("did not reach %d redials in 120 s (%d dials)", 4*leakR, rr.nCarriers()))
 		return
 	}
@@ -655,6 +696,7 @@ func leakScenario(res *vlib.Result, name string, idSuffix string, busy bool, gen
 	}
 	res.Obs("packets_relayed_in", atomic.LoadInt64(&rr.pktsIn))
 	res.Obs("packets_relayed_out", atomic.LoadInt64(&rr.pktsOut))
+	res.Save()
 }
 
 // afterCloseScenario: one RedialPacketConn, closed in a given situation; at
@@ -687,12 +729,12 @@ func afterCloseScenario(res *vlib.Result, variant string) {
 	okw := true
 	switch variant {
 	case "idle-carrier":
-		okw = waitCh(rr.ch("hold/0"), 60*time.Second)
+		okw = rr.await("hold/0", 60*time.Second)
 		rr.close()
 	case "blocked-write":
-		okw = waitCh(rr.ch("hold/0"), 60*time.Second)
+		okw = rr.await("hold/0", 60*time.Second)
 		rr.conn.WriteTo(mkPkt('W', 0, 1, 100), fakeAddr("x"))
-		okw = okw && waitCh(rr.ch("write-entered/0"), 60*time.Second)
+		okw = okw && rr.await("write-entered/0", 60*time.Second)
 		rr.close()
 		// both directions of the carrier are blocked now; what the connection does
 		// until the write returns is observed, not judged
@@ -703,16 +745,21 @@ func afterCloseScenario(res *vlib.Result, variant string) {
 			c.releaseNow()
 		}
 	case "during-blocked-dial":
-		okw = waitCh(rr.ch("dial-blocked"), 60*time.Second)
+		okw = rr.await("dial-blocked", 60*time.Second)
 		rr.close()
 		rr.openGate()
 	case "after-dial-failure":
-		okw = waitCh(rr.ch("dial-failed"), 60*time.Second)
+		okw = rr.await("dial-failed", 60*time.Second)
 	}
 	if !okw || !waitCh(rdone, 60*time.Second) {
-		res.Inconcl(id + ": scenario did not reach its end state")
+		if !rr.dead() {
+			res.Inconcl(id + ": scenario did not reach its end state")
+		}
 		rr.close()
 		rr.openGate()
+		if c := rr.carrierAt(0); c != nil {
+			c.releaseNow()
+		}
 		return
 	}
 	rr.awaitAllClosed()
@@ -812,23 +859,25 @@ func shortScenario(res *vlib.Result, sc redialScript) {
 	last := len(sc.Carriers) - 1
 	switch sc.End {
 	case "dial-fails":
-		ok = waitCh(rr.ch("dial-failed"), 60*time.Second)
+		ok = rr.await("dial-failed", 60*time.Second)
 	case "close-live":
 		if sc.CloseEarly {
-			ok = waitCh(rr.ch(fmt.Sprintf("dialled/%d", last)), 60*time.Second)
+			ok = rr.await(fmt.Sprintf("dialled/%d", last), 60*time.Second)
 		} else {
-			ok = waitCh(rr.ch(fmt.Sprintf("hold/%d", last)), 60*time.Second)
+			ok = rr.await(fmt.Sprintf("hold/%d", last), 60*time.Second)
 		}
 		rr.close()
 	case "close-racing-dial":
-		ok = waitCh(rr.ch("closed-by-harness"), 60*time.Second)
+		ok = rr.await("closed-by-harness", 60*time.Second)
 	default:
-		ok = waitCh(rr.ch("dial-blocked"), 60*time.Second)
+		ok = rr.await("dial-blocked", 60*time.Second)
 		rr.close()
 		rr.openGate()
 	}
 	if !ok {
-		res.Inconcl(sc.Case + ": scenario did not reach its end event in 60 s")
+		if !rr.dead() { // a surfaced error was reported as a violation already
+			res.Inconcl(sc.Case + ": scenario did not reach its end event in 60 s")
+		}
 		rr.close()
 		rr.openGate()
 	}
@@ -870,7 +919,7 @@ func runRedial(res *vlib.Result, root *vlib.Rand) {
 	leakScenario(res, "write-first", "", true, func(i int) carrierScript { return carrierScript{Order: ordWrite, NIn: i % 3, NOut: i % 3} })
 	leakScenario(res, "both-at-once", "", true, func(i int) carrierScript { return carrierScript{Order: ordBoth, NIn: i % 2, NOut: i % 3} })
 	leakScenario(res, "external-close", "", false, func(i int) carrierScript { return carrierScript{Order: ordExt, NIn: i % 3} })
-	nMixed := vlib.Scale(1, 12)
+	nMixed := vlib.Scale(1, 24)
 	for m := 0; m < nMixed; m++ {
 		mr := root.SplitN("mixed", m)
 		picks := make([]carrierScript, 4*leakR+2)
@@ -897,10 +946,13 @@ func runRedial(res *vlib.Result, root *vlib.Rand) {
 	}
 
 	// 3. PRNG scenarios: carrier sequences x how it ends
-	n := vlib.Scale(400, 8000)
+	n := vlib.Scale(400, 30000)
 	for i := 0; i < n; i++ {
 		sc := genRedialScript(root.SplitN("short", i), fmt.Sprintf("short/%d", i))
 		shortScenario(res, sc)
+		if i%50 == 49 {
+			res.Save() // keep what was found if a later case kills the process
+		}
 		if i < 2 {
 			res.Sample(2, sc)
 		}
